@@ -2,6 +2,7 @@
    Killing of descendants is kill_process_tree's job (shape facts below + real process trees in the check). *)
 From Coq Require Import List Arith Bool.
 From LokyV Require Import Lib.LedgerLib Lib.PoolLib Gen.Ledger Gen.Pool Model.Pool Proofs.PoolThm.
+From LokyV Require Model.KillLock Proofs.KillLockThm Lib.WorkerLib Gen.Worker Proofs.WorkerThm.
 Import ListNotations.
 
 (* whatever happened before (a graceful shutdown included), shutdown(kill_workers=True) sets both flags *)
@@ -33,3 +34,24 @@ Theorem C06_structure :
   /\ flag_executor_shutting_down_ops = [FlagShutdown; IfKillWorkers [FailPendingShut; KillWorkers]].
 Proof. repeat split; reflexivity. Qed.
 Print Assumptions C06_structure.
+
+(* ---- the management lock against loky's own kills (Model/KillLock.v; finding H10, fixed) ----
+   kill_workers() holds the processes management lock while it SIGKILLs the workers (generated fact of the Ledger unit), and a worker
+   only ever probes that lock -- acquire immediately followed by release (Gen/Worker.v).  Hence, whatever the workers and the manager
+   do, and absent kills from outside loky, the lock is never left with a dead process: shutdown_workers(), which the forced shutdown
+   runs next, can always take it.  With kills from outside this is false (H5, known). *)
+Theorem C06_own_kills_never_orphan_the_management_lock :
+  forall n es, forallb (fun e => negb (KillLock.external e)) es = true ->
+    KillLock.hold (KillLock.run es (KillLock.ks0 n)) <> KillLock.ByDead /\
+    KillLock.manager_can_take_the_lock (KillLock.step (KillLock.run es (KillLock.ks0 n)) KillLock.Release) = true.
+Proof. exact KillLockThm.own_kills_never_orphan_the_lock. Qed.
+Print Assumptions C06_own_kills_never_orphan_the_management_lock.
+
+Theorem C06_worker_only_probes_the_management_lock :
+  forall e, WorkerLib.acquire_then_release (WorkerLib.acts (WorkerThm.it e)) = true /\ WorkerLib.holds_mgmt (WorkerThm.it e) = false.
+Proof. exact WorkerThm.management_lock_is_only_probed. Qed.
+Print Assumptions C06_worker_only_probes_the_management_lock.
+
+Example C06_h10_kill_without_the_lock :
+  let s := fold_left (KillLock.step_with false) [KillLock.Probe; KillLock.MgrKillAll] (KillLock.ks0 2) in KillLock.hold s = KillLock.ByDead.
+Proof. vm_compute. reflexivity. Qed.
